@@ -44,6 +44,10 @@ pub struct Def {
     pub output: Output,
     pub broken: Broken,
     pub explicit_append: bool,
+    /// an explicit `.append` of the same bytes that the store refuses (unregistered context),
+    /// swallowed by `try`: it must leave nothing behind and take nothing away
+    #[serde(default)]
+    pub refused_append: bool,
     pub env_bump: bool,
     pub sleep_ms: u8,
     pub suffix: Option<String>,
@@ -92,17 +96,18 @@ pub fn strategy() -> BoxedStrategy<C19Case> {
             1 => (2u8..5, 0u8..4).prop_map(|(n, k)| Output::StreamErr(n, k % n)),
         ],
         prop_oneof![8 => Just(Broken::No), 2 => Just(Broken::RuntimeError), 1 => Just(Broken::BadBuiltinArg), 1 => Just(Broken::Parse), 1 => Just(Broken::NoRun)],
-        prop_oneof![3 => Just(false), 1 => Just(true)],
+        (prop_oneof![3 => Just(false), 1 => Just(true)], proptest::bool::weighted(0.15)),
         prop_oneof![2 => Just(false), 1 => Just(true)],
         prop_oneof![3 => Just(0u8), 1 => Just(15u8), 1 => Just(40u8)],
         proptest::option::weighted(0.3, proptest::sample::select(vec![".r", ".done", "-x"]).prop_map(|s| s.to_string())),
         prop_oneof![4 => Just(None), 1 => Just(Some(WTtl::Head(2))), 1 => Just(Some(WTtl::Ephemeral)), 1 => Just(Some(WTtl::Time(60_000)))],
         prop_oneof![5 => Just(false), 1 => Just(true)],
     )
-        .prop_map(|(output, broken, explicit_append, env_bump, sleep_ms, suffix, ttl, use_module)| Def {
+        .prop_map(|(output, broken, (explicit_append, refused_append), env_bump, sleep_ms, suffix, ttl, use_module)| Def {
             output,
             broken,
             explicit_append,
+            refused_append,
             env_bump,
             sleep_ms,
             suffix,
@@ -154,6 +159,9 @@ fn render(def: &Def) -> String {
     }
     if def.explicit_append {
         s.push_str("    \"side\" | .append side.effect --meta {note: \"x\"} | ignore\n");
+    }
+    if def.refused_append {
+        s.push_str("    try { \"side\" | .append side.effect --context \"0000000000000000000000001\" | ignore }\n");
     }
     if def.use_module {
         s.push_str("    let _m = (helper twice 2)\n");
@@ -437,6 +445,16 @@ fn run_in(case: &C19Case, nu: &mut Nu) -> Result<CaseInfo, Fail> {
     if let Some(p) = nu.panics()?.first() {
         return Err(Fail::new(Class::Panic, format!("xs panicked: {p}")));
     }
+    // whatever is observable with a hash has its content (C10's clause at the nu level: a
+    // refused `.append` of bytes some stored frame shares must not take them away)
+    for w in frames.iter().filter(|w| w.hash.is_some()) {
+        let h = w.hash.as_ref().unwrap();
+        let c = nu.content(h)?;
+        checks += 1;
+        if sha256_integrity(&c) != *h {
+            return Err(Fail::new(Class::Cas, format!("content of {} ({}) does not hash to its frame's hash", w.id, w.topic)));
+        }
+    }
     // calls are never executed again after a restart: kill the server, start it on the same
     // store, wait until its commands loop is live, and count the stamped frames per call again
     // (stored frames only: the observer of the restarted server cannot have seen earlier ephemeral ones)
@@ -465,6 +483,7 @@ fn run_in(case: &C19Case, nu: &mut Nu) -> Result<CaseInfo, Fail> {
         (overlapped, "overlapping-calls"),
         (redefine_between_calls, "redefine-between-calls"),
         (defs.iter().any(|d| d.1.broken != Broken::No), "broken-definition"),
+        (defs.iter().any(|d| d.1.refused_append), "refused-explicit-append"),
         (calls.iter().any(|c| c.def.is_none()), "call-of-undefined"),
         (defs.iter().any(|d| d.1.env_bump), "env-leak-probe"),
     ] {
